@@ -180,6 +180,12 @@ def lengthLoop (length : Int) : List Int → Int → Bool × Int
     if length = a then (true, mx)
     else lengthLoop length as (if a > mx then a else mx)
 
+/-- the length rule: one of the allowed lengths, or longer than every allowed length seen -/
+def lengthOK (allowedLengths : List Int) (n : Nat) : Bool :=
+  let length : Int := n
+  let r := lengthLoop length allowedLengths 0
+  if !r.1 && decide (length > r.2) then true else r.1
+
 structure Out where
   text : List Nat
   p0 : Nat
@@ -197,13 +203,9 @@ def decodeRow (D : VarDom) (T : ItfT) (row : List Bool) (allowed : Option (List 
       match middleLoop D T row endRange.1 (row.length + 1) startRange.2 [] with
       | .error e => .error e
       | .ok result =>
-        let allowedLengths := match allowed with
-          | some a => a
-          | none => T.defaultAllowed
-        let length : Int := result.length
-        let (lengthOK, mx) := lengthLoop length allowedLengths 0
-        let lengthOK := if !lengthOK && decide (length > mx) then true else lengthOK
-        if !lengthOK then .error .format
+        -- `allowedLengths, ok := hints[ALLOWED_LENGTHS].([]int); if !ok { allowedLengths = DEFAULT_ALLOWED_LENGTHS }`
+        let allowedLengths := allowed.getD T.defaultAllowed
+        if !(lengthOK allowedLengths result.length) then .error .format
         else .ok { text := result, p0 := startRange.2, p1 := endRange.1 }
 
 end Gzx.RowITF
